@@ -51,6 +51,14 @@ def gen_case(rng, tier):
     c["boundary"] = rng.choice([None, None, "midext0", "midext1", "mixing0", "mixing1"])
     c["n_updates"] = rng.choice([0, 1, 2])
     c["preload"] = gen_mpatients(rng, mods, lnls, 1, 4) if rng.random() < 0.4 else None   # an earlier cohort (replaced)
+    if c["preload"]:
+        c["preload"][0]["ext"] = None          # ... holding a patient of unknown extension status
+        c["preload"][0]["central"] = False
+        if rng.random() < 0.5:                 # ... while every patient of the cohort under test has a recorded status
+            for p in c["patients"]:
+                if p.get("ext") is None:
+                    p["ext"] = False
+                    p["central"] = False
     return c
 
 
